@@ -38,15 +38,17 @@ def steppedClock (sec : Int) (nsec every stepns k : Nat) : Int × Nat :=
 def steppedReadings (sec : Int) (nsec every stepns n : Nat) : List (Int × Nat) :=
   (List.range n).map (steppedClock sec nsec every stepns)
 
+/-- the 14-bit clock field read off bytes 8 and 9 (any version) -/
+def clockKey (u : List UInt8) : Nat := (byteAt u 8 &&& 0x3F).toNat <<< 8 ||| (byteAt u 9).toNat
+
 /-- first repeated element of a run, as `(earlier index, later index)`: buckets by the 14-bit clock field (two
     equal UUIDs have equal clock fields), each bucket searched linearly -/
 def firstDupAux : List (List UInt8) → Nat → Array (List (List UInt8 × Nat)) → Option (Nat × Nat)
   | [], _, _ => none
   | u :: us, k, buckets =>
-    let b := (byteAt u 8 &&& 0x3F).toNat <<< 8 ||| (byteAt u 9).toNat
-    match (buckets.getD b []).find? (fun e => e.1 == u) with
+    match (buckets.getD (clockKey u) []).find? (fun e => e.1 == u) with
     | some e => some (e.2, k)
-    | none => firstDupAux us (k + 1) (buckets.setIfInBounds b ((u, k) :: buckets.getD b []))
+    | none => firstDupAux us (k + 1) (buckets.setIfInBounds (clockKey u) ((u, k) :: buckets.getD (clockKey u) []))
 
 def firstDup (us : List (List UInt8)) : Option (Nat × Nat) := firstDupAux us 0 (Array.replicate 16384 [])
 
